@@ -122,45 +122,42 @@ def run(prog: Program, ctx: Ctx) -> None:  # noqa: PLR0912,PLR0915
     tuple_shape = alignment_table(prog, ctx, "R1", max_pos, max_kw, 1500)
 
     # ------------------------------------------------------------------ R2 consumers
-    ctx.rule("R2", "both consumers destructure get_parameters' 4-tuples in the producer's order and pass name/kind/annotation/default to the right field; "
-                   "a variadic marker string is passed through unchanged")
+    ctx.rule("R2", "the consumers of get_parameters put name / kind / annotation / default into the right field and pass a variadic marker string "
+                   "through unchanged: lambda expressions evaluated here, function definitions by the definition table R5")
     if tuple_shape is None:
         raise AnalysisError("C02: no tuple observed from get_parameters")
+    # The function-definition consumer (Visitor.handle_function) is decided on behaviour by the definition table R5: every parameter's name, kind,
+    # annotation and default are compared there.  The other consumer builds lambda expressions; it is evaluated here on lambdas with every kind of
+    # parameter.  (First version: the two comprehensions over get_parameters(...) were matched statement by statement; moving one of them into a
+    # helper with an explicit loop - behaviour unchanged - made that report, so it was retired.)
+    build = prog.function("_griffe.expressions._build")
+    scope = Obj(prog.cls("_griffe.models.Module"), {"name": "m", "path": "m", "members": {}, "parent": None}, label="m")
     n_cons = 0
-    for f in prog.functions.values():
-        for comp in walk_no_nested(f.node):
-            if not isinstance(comp, ast.comprehension):
-                continue
-            if not (isinstance(comp.iter, ast.Call) and prog.resolve(f.module, dotted(comp.iter.func) or "") == gp.qualname):
-                continue
-            n_cons += 1
-            tgt = comp.target
-            if not (isinstance(tgt, ast.Tuple) and len(tgt.elts) == 4):
-                ctx.ob("R2", key(f, "destructure"), False, "consumer does not unpack four fields", where(f, comp.iter))
-                continue
-            names = [unparse(e) for e in tgt.elts]
-            n_name, n_ann, n_kind, n_def = (names[i] for i in tuple_shape)
-            from sa.srcmodel import parent as _parent
-
-            holder = _parent(comp)
-            elt = holder.elt if isinstance(holder, (ast.ListComp, ast.GeneratorExp)) else None
-            ctor = elt if isinstance(elt, ast.Call) else None
-            if ctor is None:
-                raise AnalysisError(f"C02-R2: consumer in {f.qualname} is not a constructor comprehension")
-            first = unparse(ctor.args[0]) if ctor.args else unparse(kwarg(ctor, "name"))
-            k = kwarg(ctor, "kind")
-            d = kwarg(ctor, "default")
-            a = kwarg(ctor, "annotation")
-            ctx.ob("R2", key(f, "name-field"), first == n_name, f"parameter name comes from the name slot (`{first}` vs `{n_name}`)", where(f, ctor))
-            ctx.ob("R2", key(f, "kind-field"), k is not None and unparse(k) == n_kind, f"kind comes from the kind slot (`{unparse(k)}` vs `{n_kind}`)", where(f, ctor))
-            d_names = {n.id for n in ast.walk(d) if isinstance(n, ast.Name)} if d is not None else set()
-            ctx.ob("R2", key(f, "default-field"), n_def in d_names and n_ann not in d_names, f"default comes from the default slot `{n_def}`", where(f, ctor))
-            passthrough = d is not None and isinstance(d, ast.IfExp) and unparse(d.body) == n_def and "isinstance" in unparse(d.test) and "str" in unparse(d.test)
-            ctx.ob("R2", key(f, "variadic-marker-passthrough"), passthrough, "a string default (variadic marker) is kept as is; anything else is converted to an expression", where(f, ctor))
-            if a is not None and not (isinstance(a, ast.Constant) and a.value is None):
-                a_names = {n.id for n in ast.walk(a) if isinstance(n, ast.Name)}
-                ctx.ob("R2", key(f, "annotation-field"), n_ann in a_names and n_def not in a_names, f"annotation comes from the annotation slot `{n_ann}`", where(f, ctor))
-    ctx.expect_min("R2", n_cons, 2)
+    for src_ in ("lambda: 0", "lambda a: 0", "lambda a, /, b=1, *c, d, e=2, **f: 0", "lambda a=x.y, *, d=[1, 2]: 0", "lambda *args, **kwargs: 0", "lambda a, b=None, /, c=3: 0"):
+        node = ast.parse(src_, mode="eval").body
+        want = []
+        ar = node.args
+        pos = [*ar.posonlyargs, *ar.args]
+        defaults = [None] * (len(pos) - len(ar.defaults)) + list(ar.defaults)
+        for i_, (a_, d_) in enumerate(zip(pos, defaults)):
+            want.append((a_.arg, "positional_only" if i_ < len(ar.posonlyargs) else "positional_or_keyword", None if d_ is None else ast.unparse(d_)))
+        if ar.vararg:
+            want.append((ar.vararg.arg, "var_positional", "()"))
+        for a_, d_ in zip(ar.kwonlyargs, ar.kw_defaults):
+            want.append((a_.arg, "keyword_only", None if d_ is None else ast.unparse(d_)))
+        if ar.kwarg:
+            want.append((ar.kwarg.arg, "var_keyword", "{}"))
+        try:
+            e = it.call(build, node, scope, parse_strings=False)
+            got = [(q.attrs["name"], repr(q.attrs["kind"]).split(".")[-1],
+                    None if q.attrs["default"] is None else (q.attrs["default"] if isinstance(q.attrs["default"], str) else it._str(q.attrs["default"])))
+                   for q in e.attrs["parameters"]]
+            ann_ok = all(q.attrs.get("annotation") is None for q in e.attrs["parameters"])
+        except Raised as r:
+            got, ann_ok = f"raises {r.exc}", False
+        n_cons += 1
+        ctx.ob("R2", f"lambda|{src_}", got == want and ann_ok, f"`{src_}`: parameters (name, kind, default) built as {got}; the source says {want}", where(build))
+    ctx.expect_min("R2", n_cons, 6)
 
     # ------------------------------------------------------------------ R3 kind maps / required
     ctx.rule("R3", "the inspector's kind map is a bijection between inspect.Parameter kinds and ParameterKind members of the same name; "
